@@ -31,6 +31,22 @@ Theorem alloc_fail_propagates : forall o s, is_reset o = false -> fa s = 0 -> fa
 Proof. intros o s Ho H1 H2. exact (alloc_failure_step o Ho s (conj H1 H2)). Qed.
 Print Assumptions alloc_fail_propagates.
 
+(* the same, indexed by the OPERATION during which an allocation fails instead of by a call count (which call needs the
+   k-th allocation depends on the allocator's sizing policy, which the property leaves open): after ANY prefix of calls,
+   from ANY capacities, if the allocator refuses its next request during call o, then o either did not need the allocator
+   or returns its documented failure value.  This is the form the correspondence in checks/c13.py uses (XA:i). *)
+Theorem alloc_fail_at_any_op : forall pre o s rs es t, run true pre s = Some (rs, es, t) -> is_reset o = false ->
+  forall c : capt,
+  match step true o (set_fa 0 (set_fa_rep false (set_caps c t))) with
+  | Ret a u _ => (fa u = 0 /\ fa_rep u = false) \/ (fa u = -1 /\ a = alloc_fail_value o)
+  | Fault => True
+  end.
+Proof.
+  intros pre o s rs es t _ Ho c.
+  apply (alloc_failure_step o Ho (set_fa 0 (set_fa_rep false (set_caps c t)))). split; reflexivity.
+Qed.
+Print Assumptions alloc_fail_at_any_op.
+
 (* the failing allocator call itself leaves capacities and everything observable unchanged *)
 Theorem alloc_fail_no_state_change : forall k req s, fa s = 0 ->
   exists t, alloc_call k req s = Ret false t [] /\ caps t = caps s /\ core t = core s.
